@@ -76,6 +76,13 @@ def run_case(case):
             if got != R.accepts(w):
                 failures.append(fail("accepts", "wrong:%s" % got, w))
                 break
+        # the word is documented as an iterable: tuples, one-shot generators, Symbol objects
+        from pyformlang.finite_automaton import Symbol
+        for w in words[:30]:
+            got = (A.accepts(tuple(w)), A.accepts(x for x in w), A.accepts([Symbol(x) for x in w]))
+            if any(g != R.accepts(w) for g in got):
+                failures.append(fail("accepts_iterable_forms", "wrong:%s" % (got,), w))
+                break
         if d["cls"] == "enfa":
             for w in words[:40]:
                 w2 = ["epsilon"]
